@@ -7,12 +7,16 @@ ENTRY = {
                    "inner middleware before and after the handler, and inside Updates/View functions after 0-4 writes, with nothing / an informational header / a final "
                    "header / a partial body already sent, and with credential-bearing and ordinary request headers stored under canonical, lower-case, upper-case and mixed names. "
                    "Checked: containment or identical re-raise, the exact response rule, one diagnostic record naming route, parameters and request line and containing no "
-                   "credential value, unchanged route set, a served follow-up request and a follow-up write that gets the lock (goroutine-dump verdict).",
+                   "credential value, unchanged route set, a served follow-up request and a follow-up write that gets the lock (goroutine-dump verdict). "
+                   "A second generator serves sequences of panicking and quiet requests (headers up to 40 000 bytes) below fox.Recovery() in a child process and reads what the built-in handler "
+                   "printed while each request was served: one record about that request for a panic, nothing otherwise.",
         level_note="Fault points are handler/middleware boundaries and the steps of a managed transaction function, not arbitrary instructions inside fox.",
         rule="cases: (handler kind, panic site, value, response progress, headers); non-trivial = panic after a partial body, or a credential header stored under a non-canonical name, "
              "or a panic at an interior step of Updates; distinct by the whole case",
         assumptions=["Recovery installed for all scopes through CustomRecoveryWithLogHandler with a capturing slog.Handler", "header values are unique random tokens, so any occurrence in the record is a leak"],
-        quick=[REPLAY, R("panics", "^(TestPanics|TestExhaustive)$", checks=6000, timeout=600)],
-        thorough=[REPLAY, R("panics", "^(TestPanics|TestExhaustive)$", checks=50000, shards=16, timeout=3000)],
+        quick=[REPLAY, R("panics", "^(TestPanics|TestExhaustive)$", checks=6000, timeout=600),
+               R("default-recovery", "^TestDefaultRecovery$", checks=40, timeout=600)],
+        thorough=[REPLAY, R("panics", "^(TestPanics|TestExhaustive)$", checks=50000, shards=16, timeout=3000),
+                  R("default-recovery", "^TestDefaultRecovery$", checks=300, shards=8, timeout=3000)],
     ),
 }
